@@ -317,6 +317,32 @@ Proof.
   eapply teq_trans; [apply teq_sym; exact Ha|exact Hb].
 Qed.
 
+(* since F28 (code 10 clears FONT_TYPE) the optimised renderer is exact as well *)
+Theorem roundtrip_to_str_opt_exact s rs re nid :
+  ssorted (tbl s) -> no_esc (base s) = true -> adds_wf (tbl s) ->
+  let s' := fst (parse (to_str s true rs re) nid) in
+  base s' = base s /\ forall i, i < length (base s) -> teq (style s' i) (style s i).
+Proof.
+  intros Hs He Hwf s'.
+  destruct (tokenize_to_str s true rs re He Hwf) as (_ & Hnum & Hsgr & _).
+  destruct (render_opt_display_bytes_exact s rs re tdefault Hs He Hwf (fun _ => eq_refl)) as (disp & tfin & H1 & H2 & H3 & _).
+  destruct (reparse_generic _ s nid disp tfin teq Hnum Hsgr H1 H2 H3) as [B S]. split; [exact B|].
+  intros i Hi. destruct (S i Hi) as (st & Ha & Hb).
+  eapply teq_trans; [apply teq_sym; exact Ha|exact Hb].
+Qed.
+
+Theorem roundtrip_to_str_exact s opt rs re nid :
+  ssorted (tbl s) -> no_esc (base s) = true -> adds_wf (tbl s) ->
+  let s' := fst (parse (to_str s opt rs re) nid) in
+  base s' = base s /\ forall i, i < length (base s) -> teq (style s' i) (style s i).
+Proof. destruct opt; [apply roundtrip_to_str_opt_exact|apply roundtrip_to_str_unopt]. Qed.
+
+Theorem roundtrip_style_exact s nid : ssorted (tbl s) -> no_esc (base s) = true -> adds_wf (tbl s) ->
+  forall i, i < length (base s) ->
+  teq (style_of (map stxt (active_at (tbl (fst (parse (render s) nid))) i)))
+      (style_of (map stxt (active_at (tbl s) i))).
+Proof. intros Hs He Hwf. exact (proj2 (roundtrip_to_str_exact s true false true nid Hs He Hwf)). Qed.
+
 Theorem roundtrip_to_str s opt rs re nid :
   ssorted (tbl s) -> no_esc (base s) = true -> adds_wf (tbl s) ->
   let s' := fst (parse (to_str s opt rs re) nid) in
@@ -349,11 +375,12 @@ Proof.
   destruct ex_o_hyps as (H1 & H2 & H3 & _). repeat split; auto; vm_compute; reflexivity.
 Qed.
 
-(* teq_disp cannot be strengthened to teq for the optimised renderer: clearing FONT_TYPE is rendered
-   as "10", which comes back as a setting "10" *)
-Example roundtrip_font_only_disp :
-  style (fst (parse (render ex_f) 7)) 1 FONT_TYPE = Some [10%N] /\ style ex_f 1 FONT_TYPE = None.
-Proof. split; vm_compute; reflexivity. Qed.
+(* before F28 the optimised renderer's "10" (clear FONT_TYPE) came back as a setting "10" and only teq_disp
+   held; now the font is cleared exactly *)
+Example roundtrip_font_exact :
+  style (fst (parse (render ex_f) 7)) 1 FONT_TYPE = None /\ style ex_f 1 FONT_TYPE = None
+  /\ style (fst (parse (render ex_f) 7)) 0 FONT_TYPE = Some [11%N].
+Proof. repeat split; vm_compute; reflexivity. Qed.
 
 (* ====================================================================================== *)
 (* 3. simplify                                                                               *)
@@ -547,6 +574,22 @@ Proof.
   - destruct (parse_parsable (render s0) nid) as [P V]. destruct (parse_wf (render s0) nid) as (W & N & _). auto.
 Qed.
 
+Theorem simplify_spec_exact s nid :
+  ssorted (tbl s) -> no_esc (base s) = true -> valid_adds_wf (tbl s) ->
+  let s' := fst (simplify s nid) in
+  (forall i, i < length (base s) ->
+        teq (style s' i) (style_of (map stxt (active_at (drop_invalid (tbl s)) i))))
+  /\ (coh_marks (tbl s) -> forall i, i < length (base s) -> teq (style s' i) (style_valid s i)).
+Proof.
+  intros Hs He Hwf s'. unfold s'. rewrite simplify_def.
+  set (s0 := mkA (base s) (drop_invalid (tbl s))).
+  assert (H0 : ssorted (tbl s0)) by (apply drop_invalid_sorted; exact Hs).
+  assert (H1 : adds_wf (tbl s0)) by (apply drop_invalid_wf; exact Hwf).
+  destruct (roundtrip_to_str_exact s0 true false true nid H0 He H1) as [B S]. fold (render s0) in B, S.
+  cbn [base] in B, S. split; [exact S|].
+  intros Hc i Hi. unfold style_valid. rewrite <- drop_invalid_active by exact Hc. now apply S.
+Qed.
+
 (* a value with one valid and one invalid ("1A") setting; the stop markers share the identities *)
 Definition ex_inv : astr :=
   mkA [65; 66; 67]%N
@@ -590,3 +633,84 @@ Proof.
   split; [apply cohL_check; vm_compute; reflexivity|].
   split; [vm_compute; reflexivity|]. split; vm_compute; reflexivity.
 Qed.
+
+(* ====================================================================================== *)
+(* 4. Stability                                                                              *)
+(* ====================================================================================== *)
+(* 4a. REGRESSION (finding F28).  Before F28 the clear code of FONT_TYPE (10) was itself a code that SET
+   FONT_TYPE, and the stability clauses of C03 were false, in the model and in the Python code:
+     s = AnsiString("AB"); s.apply_formatting("[11", 0, 1); s.apply_formatting("[1", 0, 1)
+     s.apply_formatting("[3;4;9", 0, 2); s.simplify()
+     str(s)                        was  ESC[11;1;3;4;9m A ESC[10;22m B ESC[m
+     str(AnsiString(str(s)))       was  ESC[11;1;3;4;9m A ESC[22;10m B ESC[m      (not a fixed point)
+     s.simplify(); str(s)          was  ESC[11;1;3;4;9m A ESC[22;10m B ESC[m      (not idempotent)
+   (the table is not parsable - "3;4;9" is one setting of three groups - so the first rendering is
+   unoptimised and drops font and bold by a reset; the simplified value has no font on "B"; its
+   optimised rendering cleared the font with "10", which parsed back as a SETTING "10" appended after
+   the others, and the next rendering listed the codes in a different order).
+   With 10 = CLEAR of FONT_TYPE the three strings agree: *)
+Definition ex_unstable : astr :=
+  mkA [65; 66]%N
+      [(0, mkP [mkS 1 [49; 49]%N; mkS 2 [49]%N; mkS 3 [51; 59; 52; 59; 57]%N] []);
+       (1, mkP [] [mkS 1 [49; 49]%N; mkS 2 [49]%N]);
+       (2, mkP [] [mkS 3 [51; 59; 52; 59; 57]%N])].
+
+Example simplify_stable_regression :
+  ssorted (tbl ex_unstable) /\ no_esc (base ex_unstable) = true /\ adds_wf (tbl ex_unstable)
+  /\ coh_marks (tbl ex_unstable) /\ is_valid_tbl (tbl ex_unstable) = true /\ strict_ok (tbl ex_unstable) = true
+  /\ is_parsable_tbl (tbl ex_unstable) = false
+  /\ let s1 := fst (simplify ex_unstable 10) in
+     render s1 = ESC :: LBR :: [49;49;59;49;59;51;59;52;59;57;109; 65]%N ++ ESC :: LBR :: [49;48;59;50;50;109; 66]%N ++ [ESC; LBR; CH_m]
+     /\ render (fst (parse (render s1) 30)) = render s1
+     /\ render (fst (simplify s1 30)) = render s1.
+Proof.
+  split; [apply ssorted_check; reflexivity|]. split; [reflexivity|]. split.
+  { intros x H. cbn in H. repeat (destruct H as [<-|H]; [reflexivity|]). destruct H. }
+  split; [apply cohL_check; vm_compute; reflexivity|]. split; [reflexivity|]. split; [reflexivity|].
+  split; [reflexivity|].
+  cbv zeta. split; [vm_compute; reflexivity|]. split; vm_compute; reflexivity.
+Qed.
+
+(* 4b. PLAN for the stability clauses.
+   Write A_c(k) := map stxt (active_at (tbl c) k) for the list of active texts at position k, A_c(-1) := [].
+   Canonical form of a value c (what `parse` produces from a rendering):
+     (K1) rm_wf c, and every add text is parsable;
+     (K2) every A_c(k) is a list of normal-form texts `textN g` of parsable groups that SET an effect
+          (tk t = KSet e), with pairwise different effects (one setting per effect: ParseProofs.Rep);
+     (K3) for every k < length (base c):  A_c(k) = filter (fun t => mem t (A_c(k))) (A_c(k-1))
+                                                   ++ filter (fun t => negb (mem t (A_c(k-1)))) (A_c(k)),
+          i.e. the kept settings keep their relative order and the new ones are appended.
+          (K3) holds for parse w when w has at most one sequence per text position - renderings do.
+   Steps:
+     (R)  for canonical c, to_str c true false true = prender (base c) A_c, a function of the base and of the
+          lists A_c(k) only: at position k it emits nothing if A_c(k) = A_c(k-1), else ESC [ em m where
+          em = the shorter of join (clears of the effects that disappear ++ new texts) and
+          join ("0" :: A_c(k)); the choice does not depend on whether the point has stop markers,
+          because under strict_ok a point without stop markers only appends and a point with stop
+          markers has a non-empty predecessor list.
+     (S)  exact form of one parse step on the active lists:
+          A_new(k) = filter (fun t => negb (mem t to_rem)) (A_old(k)) ++ to_app   for key <= k < len
+          (from ParseProofs.step_remove / step_apply with no_mid).
+     (C)  if A_old = L and the body is em(L, L') with (K2),(K3) for (L, L'), then A_new = L'
+          (pgs_str on a join of normal-form groups returns the groups; s2d on them; Rep_step).
+          This is where the clear code must re-parse as a clear: with 10 = CSet FONT_TYPE it failed (F28).
+     Hence A_{parse (render c)} = A_c pointwise, parse (render c) is canonical, and by (R) it renders as c.
+     Idempotence of simplify follows: drop_invalid is the identity on a table whose markers are valid. *)
+
+(* ==== FOOTER ==== *)
+Print Assumptions tokenize_bytes.
+Print Assumptions tk_run_toks_of.
+Print Assumptions to_str_toks_num.
+Print Assumptions tokenize_to_str.
+Print Assumptions roundtrip_to_str_opt.
+Print Assumptions roundtrip_to_str_unopt.
+Print Assumptions roundtrip_to_str.
+Print Assumptions roundtrip_text.
+Print Assumptions roundtrip_style.
+Print Assumptions roundtrip_to_str_exact.
+Print Assumptions roundtrip_style_exact.
+Print Assumptions parse_adds_parsable.
+Print Assumptions parse_parsable.
+Print Assumptions drop_invalid_active.
+Print Assumptions simplify_spec.
+Print Assumptions simplify_spec_exact.
